@@ -140,6 +140,9 @@ var fileTasksYAML = map[string]string{
     watch: true
     cmds:
       - echo "O|A.t4|$PWD|{{.IV}}"
+  'x:own':
+    cmds:
+      - echo "O|A.x:own|$PWD|{{.IV}}"
 `,
 	"B": `  t1:
     cmds:
